@@ -322,6 +322,53 @@ def c14_d(ctx: Ctx):
     bk = [n for n in body_nodes(fi) if isinstance(n, ast.Assign) and any(isinstance(t, ast.Name) and t.id in bnames for t in n.targets)]
     if not bk:
         out.append(ctx.inc(R, fi, fi.node, "no in-memory backup (value restored by the roll-back handler) found"))
+    # the in-memory copy is a snapshot only for documents without a file (a deep copy of a file-backed document is another handle on the same file): the choice of
+    # that branch may depend only on: document empty, no file name, file missing
+    pmf = ctx.parents(fi)
+    for b in bk:
+        cur = pmf.get(id(b))
+        branch_if = None
+        while cur is not None:
+            if isinstance(cur, ast.If):
+                branch_if = cur
+                break
+            cur = pmf.get(id(cur))
+        kd = fi.qual + "|in-memory-branch-condition"
+        if branch_if is None:
+            out.append(ctx.inc(R, fi, b, "the in-memory backup is not chosen by an if", construct=kd))
+            continue
+        # dependency closure of the condition through the locals' definitions
+        deps, seen, work = set(), set(), [branch_if.test]
+        params = set(fi.params)
+        while work:
+            e = work.pop()
+            for x in ast.walk(e):
+                if isinstance(x, ast.Call):
+                    deps.add(canon(x).replace(" ", ""))
+                if isinstance(x, ast.Name) and x.id not in seen and x.id not in params:
+                    seen.add(x.id)
+                    for n2 in body_nodes(fi):
+                        if isinstance(n2, ast.Assign) and any(isinstance(t, ast.Name) and t.id == x.id for t in n2.targets):
+                            work.append(n2.value)
+                            # the condition under which this definition applies is a dependency too
+                            c2 = pmf.get(id(n2))
+                            while c2 is not None and c2 is not fi.node:
+                                if isinstance(c2, ast.If) and c2 is not branch_if:
+                                    work.append(c2.test)
+                                c2 = pmf.get(id(c2))
+        fnames = {t.id for n2 in body_nodes(fi) if isinstance(n2, ast.Assign) and isinstance(n2.value, ast.Call) and (dotted(n2.value.func) or "") == "getattr" for t in n2.targets if isinstance(t, ast.Name)}
+        proxies = {t.id for n2 in body_nodes(fi) if isinstance(n2, ast.Assign) and isinstance(n2.value, ast.Call) and (dotted(n2.value.func) or "").endswith("_DocProxy") for t in n2.targets if isinstance(t, ast.Name)}
+        allowed = set()
+        for fnm in fnames:
+            allowed |= {f"os.path.isfile({fnm})", f"os.path.exists({fnm})"}
+        for pr in proxies:
+            allowed |= {f"len({pr})"}
+        extra = sorted(d for d in deps if d not in allowed and not d.startswith(("getattr(", "_DocProxy(", "len(")) and "isfile" in d or "exists(" in d and d not in allowed)
+        if extra:
+            out.append(ctx.viol(R, fi, branch_if, f"whether the roll-back uses the in-memory copy also depends on {extra[0]}: a non-empty, file-backed document can then be 'backed up' by a deep copy, "
+                                "which is only another handle on the same file - after a conflict the roll-back clears the document and restores nothing", construct=kd))
+        else:
+            out.append(ctx.ok(R, fi, branch_if, "the in-memory copy is used only for an empty document / no file name / a missing file", construct=kd))
     for b in bk:
         if isinstance(b.value, ast.Call) and common.ext_name(ctx, fi, b.value) == "copy.deepcopy":
             out.append(ctx.ok(R, fi, b, "the in-memory backup is a deep copy"))
@@ -395,6 +442,11 @@ def c14_e(ctx: Ctx):
         out.append(ctx.ok(R, None, None, "DocSync.NO_SYNC is False and DocSync.COPY is a distinct sentinel", construct="DocSync|sentinels"))
     else:
         out.append(ctx.viol(R, None, None, f"DocSync sentinels changed: NO_SYNC={ns!r} COPY={cp!r}", construct="DocSync|sentinels"))
+    from .c15 import c15_a
+    for r in c15_a(ctx):
+        if "always-stores" in r.construct or "no-forwarding" in r.construct:
+            r.rule = R
+            out.append(r)
     ms = ctx.prog.funcs.get("signac.__main__:main_sync")
     if ms is not None:
         # the strategy variable: the local handed over as doc_sync=<name>
